@@ -3,14 +3,17 @@
 different from the ones that already exist (summarised in one line each; nothing of /verif is shown)."""
 import json, sys, re
 pid = sys.argv[1]
-wt = "/tmp/seed2/" + pid
+root = sys.argv[2] if len(sys.argv) > 2 else "/tmp/seed2"
+L1, L2 = (sys.argv[3], sys.argv[4]) if len(sys.argv) > 4 else ("C", "D")
+wt = root + "/" + pid
 p = [json.loads(l) for l in open("/verif/properties.jsonl") if json.loads(l)["id"] == pid][0]
 taken = []
 for l in open("/verif/DESIGN.md"):
-    m = re.match(r"\| (C\d\d-[AB]) \| ([^|]*) \|", l)
+    m = re.match(r"\| (C\d\d-[A-D]) \| ([^|]*) \|", l)
     if m and m.group(1).startswith(pid):
         taken.append(m.group(2).strip().replace("`", ""))
-print(f"""You are given a scratch git worktree of the Go repository tokenized/spynode at {wt} (a Bitcoin SV "spy node": syncs headers/blocks from a trusted peer, tracks a mempool for double-spend detection, serves a client wire protocol). Work ONLY inside {wt}. Do not read or touch /repo, /verif or /tmp/seed (other people's work lives there and your result must be independent of it).
+taken_txt = "\n".join("  - " + t for t in taken) or "  -"
+print(f"""You are given a scratch git worktree of the Go repository tokenized/spynode at {wt} (a Bitcoin SV "spy node": syncs headers/blocks from a trusted peer, tracks a mempool for double-spend detection, serves a client wire protocol). Work ONLY inside {wt}. Do not read or touch /repo, /verif, /tmp/seed or /tmp/seed2 (other people's work lives there and your result must be independent of it).
 
 Every shell call needs: export GOFLAGS=-mod=mod GOPROXY=off GOSUMDB=off GOTOOLCHAIN=local   (the sandbox has no network; all modules are in the module cache). The existing test suite is: cd {wt} && go build ./... && go test -vet=off -count=1 ./...   (about 15 s, all tests pass on the unchanged tree). Calls of verifhook.At(...) in the source are no-ops in a normal build; ignore them.
 
@@ -22,13 +25,12 @@ Here is a semantic property the code is supposed to satisfy:
   code it is anchored in: {', '.join(p['anchors']['files'])}
   mechanisms: {'; '.join(m['name'] + ' (' + m['where'] + ')' for m in p['anchors']['mechanism'])}
 
-Your task: produce TWO independent, realistic changes (call them C and D) to the non-test source of tokenized/spynode, each of which BREAKS this property while the repository still compiles and the existing test suite still passes unchanged. They should look like plausible regressions or refactoring slips a maintainer could make (an off-by-one, a dropped or narrowed lock, a swapped order, a missing check, a wrong variable, a removed dedup gate, a stale cache, an early return, an error that is swallowed ...), not sabotage. Prefer changes that need something specific to manifest - a particular interleaving of goroutines, a fault or crash at a particular point, a multi-step sequence of operations, an unusual input, a boundary value, or two cooperating sites that each look fine alone - rather than changes that any ordinary use would expose at once. C and D should break the property in different ways and at different places, and should violate a DIFFERENT clause of the statement than these two changes, which other people already made (do not repeat them or close variants of them):
-  - {taken[0] if taken else '-'}
-  - {taken[1] if len(taken) > 1 else '-'}
-Read the whole statement: it has several clauses; pick clauses / mechanisms / files the two above do not touch.
+Your task: produce TWO independent, realistic changes (call them {L1} and {L2}) to the non-test source of tokenized/spynode, each of which BREAKS this property while the repository still compiles and the existing test suite still passes unchanged. They should look like plausible regressions or refactoring slips a maintainer could make (an off-by-one, a dropped or narrowed lock, a swapped order, a missing check, a wrong variable, a removed dedup gate, a stale cache, an early return, an error that is swallowed ...), not sabotage. Prefer changes that need something specific to manifest - a particular interleaving of goroutines, a fault or crash at a particular point, a multi-step sequence of operations, an unusual input, a boundary value, or two cooperating sites that each look fine alone - rather than changes that any ordinary use would expose at once. {L1} and {L2} should break the property in different ways and at different places, and should differ from these changes, which other people already made (do not repeat them or close variants of them; prefer clauses, mechanisms, files, code paths and trigger conditions they do not touch):
+{taken_txt}
+Read the whole statement and the quantifier: there are several clauses and many ways to reach each; look for paths the changes above leave alone (other callers, other message kinds, error paths, boundary values, restart / reconnect / reorg variants, the interplay of two goroutines).
 
-For each change deliver, under {wt}/SEED/C and {wt}/SEED/D:
+For each change deliver, under {wt}/SEED/{L1} and {wt}/SEED/{L2}:
   - patch.diff : `git diff` of the change against the worktree's HEAD (only non-test source files; do not include the demo);
   - a demonstration: ONE Go test file named <something>_test.go.txt (say in notes.md which package directory it must be copied into, as a path relative to the repository root) whose test function names start with TestSeed, which FAILS with the change applied and PASSES without it, and which exercises the real code (explain how to run it). If the break needs a rare interleaving, the demo may force it (sleeps, many iterations), but it must pass reliably on the unchanged tree;
   - notes.md : which clause of the property statement is violated, what is needed for it to manifest, and the exact commands you ran.
-Check all of this yourself: (1) with the patch applied `go build ./...` and the existing suite pass; (2) the demonstration fails with the patch and passes on the unchanged tree. Leave the worktree's tracked files UNCHANGED at the end (git checkout -- . ; the SEED directory is untracked and stays). Reply with a short summary of C and D (files touched, one line each on how they break the property, the demo's package directory, and whether all checks passed).""")
+Check all of this yourself: (1) with the patch applied `go build ./...` and the existing suite pass; (2) the demonstration fails with the patch and passes on the unchanged tree. Leave the worktree's tracked files UNCHANGED at the end (git checkout -- . ; the SEED directory is untracked and stays). Reply with a short summary of {L1} and {L2} (files touched, one line each on how they break the property, the demo's package directory, and whether all checks passed).""")
